@@ -21,7 +21,10 @@ import warnings
 import core  # noqa: F401
 from rdflib import BNode, Dataset, Graph, Literal, URIRef
 from rdflib.graph import ReadOnlyGraphAggregate
-from rdflib.paths import AlternativePath, InvPath, MulPath, NegatedPath, SequencePath
+from rdflib.namespace import RDF
+from rdflib.paths import (AlternativePath, InvPath, MulPath, NegatedPath, SequencePath, eval_path, evalPath, inv_path,
+                          mul_path, neg_path, path_alternative, path_sequence)
+from rdflib.resource import Resource
 
 warnings.filterwarnings("ignore", category=DeprecationWarning)
 warnings.filterwarnings("ignore", category=UserWarning)
@@ -33,7 +36,7 @@ DRIVER = "drv_c11"
 CASE_TIMEOUT_S = 90   # an exhaustive block is ~1.5 s of work; the box is shared and often 5-10x oversubscribed
 EX_BLOCK = 128
 EX_BLOCKS = (1 << 18) // EX_BLOCK
-CASES = {"quick": 1600, "thorough": EX_BLOCKS + 16000, "search": 12000}
+CASES = {"quick": 1200, "thorough": EX_BLOCKS + 16000, "search": 12000}
 RULE = ("random path expressions (depth <= 4 quick / <= 6 thorough; iri, ^, /, |, ?, *, +, negated sets with forward and "
         "inverse members; a family of all-nullable sequences) over random graphs of 2-10 triples on 4-6 nodes (falsy "
         "literals, literal subjects, self-loops, 2- and 3-cycles), four bindings of the ends per case (given terms may be "
@@ -54,18 +57,22 @@ TRUSTED = ["harness/c11.py generators, oracle and canonicalisation", "lean/RV/C1
 E = "http://e/"
 NODE = {1: URIRef(E + "a"), 2: URIRef(E + "b"), 3: URIRef(E + "c"), 4: Literal(""), 5: Literal(0), 6: Literal(False),
         7: BNode("n7"), 8: Literal("x", lang="en"), 9: URIRef(E + "d"), 13: URIRef("")}
-PRED = {10: URIRef(E + "p"), 11: URIRef(E + "q"), 12: URIRef(E + "r")}
+PRED = {10: URIRef(E + "p"), 11: URIRef(E + "q"), 12: URIRef(E + "r"), 14: RDF.type}
+PFX = "PREFIX e: <%s> " % E
 TERM = {**NODE, **PRED}
 REV = {v: k for k, v in TERM.items()}
 FALSY = [4, 5, 6, 13]
 NO_SPARQL_TERM = {7}          # a blank node in a query is a variable
 GNAME = URIRef(E + "g1")
 
-ROUTES = ["triples", "so", "ds_union", "ds_default", "ds_named", "agg", "in_agg", "in_ds", "sparql_const", "sparql_values",
+ROUTES = ["triples", "so", "so_unique", "so_list", "value", "slice", "resource", "eval_direct", "interleave", "interleave_b",
+          "ds_union", "ds_default", "ds_named", "agg", "in_agg", "in_ds", "sparql_const", "sparql_values",
           "sparql_tree", "sparql_init", "sparql_ds_union", "sparql_ds_default", "sparql_ds_graph", "sparql_ds_init",
           "sparql_agg", "sparql_agg_values", "sparql_agg_init"]
 FULL, DEFAULT, NAMED, AGG = 0, 1, 2, 3
-ROUTE_GRAPH = {"triples": FULL, "so": FULL, "ds_union": FULL, "ds_default": DEFAULT, "ds_named": NAMED, "agg": AGG,
+ROUTE_GRAPH = {"so_unique": FULL, "so_list": FULL, "value": FULL, "slice": FULL, "resource": FULL, "eval_direct": FULL,
+               "interleave": FULL, "interleave_b": DEFAULT,
+               "triples": FULL, "so": FULL, "ds_union": FULL, "ds_default": DEFAULT, "ds_named": NAMED, "agg": AGG,
                "in_agg": AGG, "in_ds": FULL,
                "sparql_const": FULL, "sparql_values": FULL, "sparql_tree": FULL, "sparql_init": FULL,
                "sparql_ds_union": FULL, "sparql_ds_default": DEFAULT, "sparql_ds_graph": NAMED, "sparql_ds_init": FULL,
@@ -120,46 +127,48 @@ def has_empty_alt(ast):
 
 
 def to_rdflib(ast, style):
-    """the objects a user builds: constructors (style 0) or the overloaded operators (style 1)"""
+    """the objects a user builds: class constructors (style 0), the overloaded operators on URIRef / Path objects
+    (style 1), or the helper functions path_sequence / path_alternative / inv_path / mul_path / neg_path (style 2)"""
     k = ast[0]
     if k == "i":
         return PRED[ast[1]]
     if k == "v":
         x = to_rdflib(ast[1], style)
-        return ~x if style else InvPath(x)
-    if k == "s":
+        return inv_path(x) if style == 2 else ~x if style else InvPath(x)
+    if k in "sa":
         xs = [to_rdflib(x, style) for x in ast[1]]
         if style and len(xs) >= 2:
             r = xs[0]
             for x in xs[1:]:
-                r = r / x
+                if style == 2:
+                    r = path_sequence(r, x) if k == "s" else path_alternative(r, x)
+                else:
+                    r = r / x if k == "s" else r | x
             return r
-        return SequencePath(*xs)
-    if k == "a":
-        xs = [to_rdflib(x, style) for x in ast[1]]
-        if style and len(xs) >= 2:
-            r = xs[0]
-            for x in xs[1:]:
-                r = r | x
-            return r
-        return AlternativePath(*xs)
+        if style == 2:      # positional arguments arriving through a generator / a tuple
+            return SequencePath(*(x for x in xs)) if k == "s" else AlternativePath(*tuple(xs))
+        return SequencePath(*xs) if k == "s" else AlternativePath(*xs)
     if k == "m":
         x = to_rdflib(ast[2], style)
-        return x * ast[1] if style else MulPath(x, ast[1])
+        return mul_path(x, ast[1]) if style == 2 else x * ast[1] if style else MulPath(x, ast[1])
     if k == "n":
-        members = [PRED[i] for i in ast[1]] + [InvPath(PRED[i]) for i in ast[2]]
+        members = [PRED[i] for i in ast[1]] + [(inv_path(PRED[i]) if style == 2 else InvPath(PRED[i])) for i in ast[2]]
         if style and len(members) % 2 == 0:
             members.reverse()
         if len(members) == 1:
-            return -members[0] if style else NegatedPath(members[0])
-        return NegatedPath(AlternativePath(*members))
+            return neg_path(members[0]) if style == 2 else -members[0] if style else NegatedPath(members[0])
+        alt = AlternativePath(*members)
+        return neg_path(alt) if style == 2 else NegatedPath(alt)
     raise ValueError(k)
 
 
 def sparql_text(ast, style):
-    """style 0: every sub-expression parenthesised; style 1: only where the grammar needs it"""
+    """style 0: every sub-expression parenthesised; style 1, 2: only where the grammar needs it; style 2 also spells
+    IRIs as prefixed names (PREFIX e:) and rdf:type as `a`"""
 
     def iri(i):
+        if style == 2:      # prefixed name / the keyword `a`
+            return "a" if i == 14 else "e:" + str(PRED[i])[len(E):]
         return "<%s>" % PRED[i]
 
     def prim(a):
@@ -230,6 +239,8 @@ def syn_tokens(node):
     if isinstance(node, URIRef):
         return ["i", str(REV[node])]
     name = getattr(node, "name", None)
+    if name == "pname":
+        return ["i", str(REV[URIRef(E + node.localname)])]
     if name in ("PathAlternative", "PathSequence"):
         out = ["A" if name == "PathAlternative" else "S", str(len(node.part))]
         for x in node.part:
@@ -246,8 +257,9 @@ def syn_tokens(node):
             (part,) = part
         return ["V"] + syn_tokens(part)
     if name == "PathNegatedPropertySet":
-        fw = [REV[m] for m in (node.part or []) if isinstance(m, URIRef)]
-        bw = [REV[m.part] for m in (node.part or []) if getattr(m, "name", None) == "InversePath"]
+        un = lambda m: URIRef(E + m.localname) if getattr(m, "name", None) == "pname" else m  # noqa: E731
+        fw = [REV[un(m)] for m in (node.part or []) if isinstance(un(m), URIRef)]
+        bw = [REV[un(m.part)] for m in (node.part or []) if getattr(m, "name", None) == "InversePath"]
         if len(fw) + len(bw) != len(node.part or []):
             raise ValueError("unknown member in negated property set")
         return ["N", str(len(fw)), str(len(bw))] + [str(i) for i in fw] + [str(i) for i in bw]
@@ -257,7 +269,7 @@ def syn_tokens(node):
 def parser_tree_tokens(ast, style):
     """print the expression as SPARQL, run rdflib's parser, return the tree of the path it produced"""
     from rdflib.plugins.sparql.parser import parseQuery
-    q = parseQuery("SELECT * WHERE { ?s %s ?o }" % sparql_text(ast, style))
+    q = parseQuery(PFX + "SELECT * WHERE { ?s %s ?o }" % sparql_text(ast, style))
     triples = q[1]["where"]["part"][0]["triples"][0]
     return syn_tokens(triples[1])
 
@@ -564,7 +576,7 @@ def gen_empty_view(rng):
         o = s
     return {"triples": T, "ghost": ghost, "path": path, "ends": [[s, None], [None, o], [s, o], [None, None]],
             "routes": ["triples", "so", "agg", "ds_default", "ds_named", "sparql_const", "sparql_tree", "sparql_ds_union",
-                       "sparql_ds_default", "sparql_ds_graph"], "style": rng.randint(0, 1)}
+                       "sparql_ds_default", "sparql_ds_graph"], "style": rng.choice([0, 1, 2])}
 
 
 # ---- incremental construction from shared sub-path objects ------------------------------------------------
@@ -642,22 +654,25 @@ def gen_incremental(rng):
         steps.append(st)
     used = {x for t in T for x in (t[0], t[2])}
     s, o = pick_end(rng, nodes, used), pick_end(rng, nodes, used)
-    return {"inc": steps, "triples": T, "ends": [[None, None], [s, None], [None, o]], "style": rng.randint(0, 1)}
+    return {"inc": steps, "triples": T, "ends": [[None, None], [s, None], [None, o]], "style": rng.choice([0, 1, 1, 2])}
 
 
 def _inc_build(st, objs, style):
     k = st[0]
     if k == "iri":
         return PRED[st[1]]
+    a = objs[st[1]]
     if k == "inv":
-        return ~objs[st[1]] if style else InvPath(objs[st[1]])
+        return inv_path(a) if style == 2 else ~a if style else InvPath(a)
     if k == "seq":
-        return objs[st[1]] / objs[st[2]] if style else SequencePath(objs[st[1]], objs[st[2]])
+        b = objs[st[2]]
+        return path_sequence(a, b) if style == 2 else a / b if style else SequencePath(a, b)
     if k == "alt":
-        return objs[st[1]] | objs[st[2]] if style else AlternativePath(objs[st[1]], objs[st[2]])
+        b = objs[st[2]]
+        return path_alternative(a, b) if style == 2 else a | b if style else AlternativePath(a, b)
     if k == "mul":
-        return objs[st[1]] * st[2] if style else MulPath(objs[st[1]], st[2])
-    return -objs[st[1]] if style else NegatedPath(objs[st[1]])
+        return mul_path(a, st[2]) if style == 2 else a * st[2] if style else MulPath(a, st[2])
+    return neg_path(a) if style == 2 else -a if style else NegatedPath(a)
 
 
 def _run_inc(case):
@@ -668,7 +683,9 @@ def _run_inc(case):
         g.add((TERM[s], TERM[p], TERM[o]))
     style = case.get("style", 0)
     obs, viol, objs = [], [], []
-    stats = {"inc_cases": 1, "inc_steps": len(steps), "inc_evaluations": 0}
+    stats = {"inc_cases": 1, "inc_steps": len(steps), "inc_evaluations": 0,
+             "inc_same_object_twice": sum(1 for st in steps if st[0] in ("seq", "alt") and st[1] == st[2]),
+             "axis_build_" + {0: "constructors", 1: "operators", 2: "helper_functions"}[case.get("style", 0)]: 1}
     for st in steps:
         stats["inc_op_" + st[0]] = stats.get("inc_op_" + st[0], 0) + 1
     events = inc_events(steps)
@@ -745,6 +762,10 @@ def gen_case(rng, tier, i):
         o = s
     ends = [[None, None], [s, None], [None, o], [s, o]]
     routes = ["triples", "so", "agg", "in_agg"]
+    routes += rng.sample(["so_unique", "so_list", "value", "slice", "resource", "eval_direct", "interleave"],
+                         2 if tier == "quick" else 4)
+    if "interleave" in routes:
+        routes.append("interleave_b")
     r = rng.random()
     if r < 0.5:
         routes += ["ds_union", "ds_default", "ds_named", "in_ds"]
@@ -755,7 +776,8 @@ def gen_case(rng, tier, i):
         else:
             # SPARQL over the composite graph: the hops of a path lie in different member graphs
             routes += ["sparql_agg", "sparql_agg_values", "sparql_agg_init", "sparql_init"]
-    return {"triples": T, "path": path, "ends": ends, "routes": routes, "style": rng.randint(0, 1)}
+    return {"triples": T, "path": path, "ends": ends, "routes": routes, "style": rng.choice([0, 1, 2]),
+            "store": rng.choice(["Memory", "Memory", "SimpleMemory"])}
 
 
 # ------------------------------------------------------------------ implementation side
@@ -792,6 +814,15 @@ def _applicable(route, case, s, o, parts):
             return False
     if route == "sparql_tree" and "sparql_const" not in case["routes"]:
         return False
+    one_end = (s is None) != (o is None)
+    if route in ("value", "resource", "so_list") and not one_end:
+        return False        # Graph.value / Resource.objects|subjects / objects([s], …): exactly one end given
+    if route == "slice" and (s is not None and o is not None):
+        return False        # g[s:path], g[:path:o], g[:path]
+    if route in ("slice", "resource") and s is not None and isinstance(TERM[s], Literal):
+        return False        # these two APIs refuse a literal subject by assertion / construction
+    if route == "interleave_b" and "interleave" not in case["routes"]:
+        return False
     if route in ("in_agg", "in_ds") and (s is None or o is None):
         return False        # `(s, path, o) in graph`: both ends given
     if route.endswith("_init") and s is None and o is None:
@@ -823,6 +854,68 @@ def _run_route(route, env, path_ast, s, o):
         if S is None:
             return back((a, O) for a in g.subjects(P, O))
         return [(s, o)] if (S, P, O) in g else []
+    if route == "so_unique":
+        g = env["g"]
+        if S is None and O is None:
+            return back(g.subject_objects(P, unique=True))
+        if O is None:
+            return back((S, b) for b in g.objects(S, P, unique=True))
+        if S is None:
+            return back((a, O) for a in g.subjects(P, O, unique=True))
+        return [(s, o)] if (S, P, O) in g else []
+    if route == "so_list":          # the subject / object given as a list of nodes
+        g = env["g"]
+        if O is None:
+            return back((S, b) for b in g.objects([S], P))
+        return back((a, O) for a in g.subjects(P, [O]))
+    if route == "value":
+        # Graph.value picks one answer: it must be one of the answers, and None only if there is none.  Reported as
+        # the whole expected answer when it is one of them (so that the observation is deterministic)
+        g = env["g"]
+        v = g.value(S, P, None) if O is None else g.value(None, P, O)
+        if v is None:
+            return []
+        pair = (s, REV[v]) if O is None else (REV[v], o)
+        # (membership is tested against the relation the code computes, which is the specified one except for known
+        #  finding C11-F5; the violation itself is decided in run_impl against the specification as for every route)
+        want = expected(path_ast, env["T"], s, o, as_coded=True)
+        return sorted(want) if pair in want else [pair]
+    if route == "slice":
+        g = env["g"]
+        if S is None and O is None:
+            return back(g[:P])
+        if O is None:
+            return back((S, b) for b in g[S:P])
+        return back((a, O) for a in g[:P:O])
+    if route == "resource":
+        g = env["g"]
+        ident = lambda x: x.identifier if isinstance(x, Resource) else x  # noqa: E731
+        if O is None:
+            return back((S, ident(b)) for b in Resource(g, S).objects(P))
+        return back((ident(a), O) for a in Resource(g, O).subjects(P))
+    if route == "eval_direct":
+        g = env["g"]
+        if isinstance(P, URIRef) or env["style"] == 1:
+            return back(eval_path(g, (S, P, O)))
+        if env["style"] == 2:
+            return back(evalPath(g, (S, P, O)))
+        return back(P.eval(g, S, O))
+    if route == "interleave":
+        # two lazy evaluations of the SAME path object over two graphs, consumed alternately
+        it1, it2 = env["g"].triples((S, P, O)), env["g0"].triples((S, P, O))
+        r1, r2, live = [], [], [True, True]
+        while any(live):
+            for k, (it, acc) in enumerate(((it1, r1), (it2, r2))):
+                if live[k]:
+                    try:
+                        a, _p, b = next(it)
+                        acc.append((a, b))
+                    except StopIteration:
+                        live[k] = False
+        env.setdefault("_il", {})[(s, o)] = back(r2)
+        return back(r1)
+    if route == "interleave_b":
+        return env["_il"][(s, o)]
     if route == "ds_union":
         return back((a, b) for a, _p, b in env["ds_u"].triples((S, P, O)))
     if route == "ds_default":
@@ -851,7 +944,7 @@ def _run_route(route, env, path_ast, s, o):
         # the given ends arrive as initBindings: the pattern's variables are already bound when evalBGP runs
         target = {"sparql_init": g, "sparql_agg_init": env.get("agg"), "sparql_ds_init": env.get("ds_u")}[route]
         init = {v: x for v, x in (("s", S), ("o", O)) if x is not None}
-        return back((r[0], r[1]) for r in target.query("SELECT ?s ?o WHERE { ?s %s ?o }" % txt, initBindings=init))
+        return back((r[0], r[1]) for r in target.query(PFX + "SELECT ?s ?o WHERE { ?s %s ?o }" % txt, initBindings=init))
     if route in ("sparql_const", "sparql_ds_union", "sparql_ds_default", "sparql_ds_graph"):
         pat = "%s %s %s" % ("?s" if s is None else _n3(s), txt, "?o" if o is None else _n3(o))
         if route == "sparql_ds_graph":
@@ -860,7 +953,7 @@ def _run_route(route, env, path_ast, s, o):
         q = "SELECT %s WHERE { %s }" % (" ".join(v for v, x in (("?s", s), ("?o", o)) if x is None) or "*", pat)
         target = {"sparql_const": g, "sparql_ds_union": env.get("ds_u"), "sparql_ds_default": env.get("ds_d"),
                   "sparql_ds_graph": env.get("ds_d") if env["style"] else env.get("ds_u")}[route]  # g may be the aggregate
-        res = target.query(q)
+        res = target.query(PFX + q)
         if s is not None and o is not None:
             # no variable left: one empty solution per match (Result.__iter__ skips empty solutions, so count them)
             return [(s, o)] * len(res.bindings)
@@ -878,7 +971,7 @@ def _run_route(route, env, path_ast, s, o):
         else:
             vals = "VALUES (%s) { (%s) }" % (" ".join(v for v, _x in bound), " ".join(_n3(x) for _v, x in bound))
             q = "SELECT ?s ?o WHERE { ?s %s ?o } %s" % (txt, vals)
-        return back((r[0], r[1]) for r in g.query(q))
+        return back((r[0], r[1]) for r in g.query(PFX + q))
     raise ValueError(route)
 
 
@@ -897,9 +990,14 @@ def _fill(graph, triples, ghost):
 def _build_env(case, parts):
     env = {"style": case.get("style", 0)}
     ghost = [tuple(t) for t in case.get("ghost", [])]
-    g = Graph()
+    g = Graph(store=case.get("store", "Memory"))
     _fill(g, parts[FULL], ghost)
     env["g"] = g
+    env["T"] = parts[FULL]
+    if "interleave" in case["routes"]:
+        g0 = Graph()
+        _fill(g0, parts[DEFAULT], ghost)
+        env["g0"] = g0
     third = _third(case)
     if any(r.startswith("ds_") or r.startswith("sparql_ds") or r == "in_ds" for r in case["routes"]):
         for key, union in (("ds_u", True), ("ds_d", False)):
@@ -1013,6 +1111,11 @@ def run_impl(case):
         stats["op_" + k] = v
     used = {x for t in parts[FULL] for x in (t[0], t[2])}
     stats["self_loop"] = int(any(t[0] == t[2] for t in parts[FULL]))
+    stats["axis_build_" + {0: "constructors", 1: "operators", 2: "helper_functions"}[case.get("style", 0)]] = 1
+    stats["axis_store_" + case.get("store", "Memory")] = 1
+    stats["axis_members_3"] = int(bool(_third(case)))
+    if any(t[1] == 14 for t in parts[FULL]) or _has(ast, lambda a: a[0] == "i" and a[1] == 14):
+        stats["axis_rdf_type_a"] = 1
     for name, part in (("full", FULL), ("default", DEFAULT), ("named", NAMED)):
         if not parts[part]:
             stats["empty_" + name + "_graph"] = 1
